@@ -202,7 +202,10 @@ func (c *Ctx) fnByName(pkgSuffix, base string) *ssa.Function {
 		parts := strings.SplitN(b, ".", 2)
 		tm, ok := sp.Members[parts[0]].(*ssa.Type)
 		if !ok {
-			return nil
+			tm, ok = sp.Members[typeAliasOf(pkgSuffix, parts[0])].(*ssa.Type)
+			if !ok {
+				return nil
+			}
 		}
 		var t types.Type = tm.Type()
 		if ptr {
@@ -244,7 +247,10 @@ func (c *Ctx) Named(pkgSuffix, name string) *types.Named {
 	}
 	tm, ok := sp.Members[name].(*ssa.Type)
 	if !ok {
-		return nil
+		tm, ok = sp.Members[typeAliasOf(pkgSuffix, name)].(*ssa.Type)
+		if !ok {
+			return nil
+		}
 	}
 	n, _ := tm.Type().(*types.Named)
 	return n
@@ -319,7 +325,52 @@ func fname(fn *ssa.Function) string {
 	}
 	s := fn.String()
 	s = strings.ReplaceAll(s, modPath+"/", "")
+	// a function that plays a known structural role keeps its canonical name in obligation keys even when it has
+	// been renamed (roles.go), so that keys — and the known-findings file — survive renames
+	if len(canonNames) > 0 {
+		top := topParent(fn)
+		if cn, ok := canonNames[top]; ok {
+			ts := strings.ReplaceAll(top.String(), modPath+"/", "")
+			if ts != cn && strings.HasPrefix(s, ts) {
+				s = cn + s[len(ts):]
+			}
+		}
+	}
 	return s
+}
+
+var canonNames = map[*ssa.Function]string{}
+
+// buildCanonNames evaluates every structural role once and records role-holder → canonical name.
+func buildCanonNames(c *Ctx) {
+	for key, res := range roleResolvers {
+		f := res(c)
+		if f == nil {
+			continue
+		}
+		parts := strings.SplitN(key, "|", 2)
+		pkg, name := parts[0], parts[1]
+		var cn string
+		if strings.HasPrefix(name, "(*") {
+			cn = "(*" + pkg + "." + name[2:]
+		} else {
+			cn = pkg + "." + name
+		}
+		canonNames[f] = cn
+	}
+}
+
+// cshort: the canonical unqualified name of a function (used in sub-labels of obligation keys).
+func cshort(fn *ssa.Function) string {
+	if fn == nil {
+		return ""
+	}
+	if cn, ok := canonNames[fn]; ok {
+		if i := strings.LastIndex(cn, "."); i >= 0 {
+			return cn[i+1:]
+		}
+	}
+	return fn.Name()
 }
 
 // ---------- instruction helpers ----------
@@ -450,13 +501,14 @@ func deref(t types.Type) types.Type {
 }
 
 func isNamed(t types.Type, pkgPath, name string) bool {
+	recordAnchorQuery(pkgPath, name, "")
 	t = types.Unalias(deref(t))
 	n, ok := t.(*types.Named)
 	if !ok {
 		return false
 	}
 	o := n.Obj()
-	if o.Name() != name {
+	if o.Name() != name && o.Name() != typeAliasOf(pkgPath, name) {
 		return false
 	}
 	if o.Pkg() == nil {
@@ -474,16 +526,116 @@ func fieldOf(v ssa.Value) (owner types.Type, field *types.Var, ok bool) {
 	case *ssa.Field:
 		st := v.X.Type().Underlying().(*types.Struct)
 		return v.X.Type(), st.Field(v.Field), true
+	case *ssa.Call:
+		// a call of a trivial getter `func (x *T) f() F { return x.f }` reads the field
+		if sc := v.Call.StaticCallee(); sc != nil {
+			if o, f := trivialGetter(sc); f != nil {
+				return o, f, true
+			}
+		}
 	}
 	return nil, nil, false
 }
 
+var getterMemo = map[*ssa.Function][2]any{}
+
+// trivialGetter: fn is a single-block method that returns (a load of) one field of its receiver, possibly through one
+// method call on it (x.f.Load(), x.f.Bytes()); returns the receiver's struct type and the field.
+func trivialGetter(fn *ssa.Function) (types.Type, *types.Var) {
+	if fn == nil || fn.Blocks == nil || len(fn.Blocks) != 1 || fn.Signature.Recv() == nil || len(fn.Params) != 1 || fn.Signature.Results().Len() != 1 {
+		return nil, nil
+	}
+	if m, ok := getterMemo[fn]; ok {
+		if m[1] == nil {
+			return nil, nil
+		}
+		return m[0].(types.Type), m[1].(*types.Var)
+	}
+	getterMemo[fn] = [2]any{nil, nil}
+	ret, ok := fn.Blocks[0].Instrs[len(fn.Blocks[0].Instrs)-1].(*ssa.Return)
+	if !ok || len(ret.Results) != 1 {
+		return nil, nil
+	}
+	v := ret.Results[0]
+	for i := 0; i < 4; i++ {
+		switch x := v.(type) {
+		case *ssa.UnOp:
+			v = x.X
+			continue
+		case *ssa.Convert:
+			v = x.X
+			continue
+		case *ssa.Call:
+			if len(x.Call.Args) >= 1 && !x.Call.IsInvoke() {
+				v = x.Call.Args[0]
+				continue
+			}
+		}
+		break
+	}
+	fa, ok := v.(*ssa.FieldAddr)
+	if !ok || fa.X != ssa.Value(fn.Params[0]) {
+		return nil, nil
+	}
+	st := deref(fa.X.Type()).Underlying().(*types.Struct)
+	getterMemo[fn] = [2]any{deref(fa.X.Type()), st.Field(fa.Field)}
+	return deref(fa.X.Type()), st.Field(fa.Field)
+}
+
+// trivialSetter: fn is a single-block method whose only effect is storing a value (constant or its parameter) into
+// one field of its receiver; returns the field and the stored value.
+func trivialSetter(fn *ssa.Function) (*types.Var, ssa.Value) {
+	if fn == nil || fn.Blocks == nil || len(fn.Blocks) != 1 || fn.Signature.Recv() == nil || len(fn.Params) == 0 {
+		return nil, nil
+	}
+	var fld *types.Var
+	var val ssa.Value
+	n := 0
+	for _, in := range fn.Blocks[0].Instrs {
+		switch x := in.(type) {
+		case *ssa.Store:
+			fa, ok := x.Addr.(*ssa.FieldAddr)
+			if !ok || fa.X != ssa.Value(fn.Params[0]) {
+				return nil, nil
+			}
+			st := deref(fa.X.Type()).Underlying().(*types.Struct)
+			fld, val = st.Field(fa.Field), x.Val
+			n++
+		case *ssa.Call, *ssa.Go, *ssa.Defer, *ssa.MapUpdate, *ssa.Send:
+			return nil, nil
+		}
+	}
+	if n != 1 {
+		return nil, nil
+	}
+	return fld, val
+}
+
 func isField(v ssa.Value, pkg, typ, field string) bool {
+	recordAnchorQuery(pkg, typ, field)
 	o, f, ok := fieldOf(v)
 	if !ok {
 		return false
 	}
-	return f.Name() == field && isNamed(o, pkg, typ)
+	return f.Name() == fieldAliasOf(pkg, typ, field) && isNamed(o, pkg, typ)
+}
+
+// ---- structural aliases for renamed unexported types and fields (filled by buildAliases in roles.go) ----
+var typeAlias = map[string]string{}  // "pkg|Type" → current name
+var fieldAlias = map[string]string{} // "pkg|Type|field" → current name
+
+func typeAliasOf(pkg, typ string) string {
+	if a, ok := typeAlias[strings.TrimPrefix(pkg, modPath+"/")+"|"+typ]; ok {
+		return a
+	}
+	return typ
+}
+
+func fieldAliasOf(pkg, typ, field string) string {
+	if a, ok := fieldAlias[strings.TrimPrefix(pkg, modPath+"/")+"|"+typ+"|"+field]; ok {
+		return a
+	}
+	return field
 }
 
 func constString(v ssa.Value) (string, bool) {
@@ -775,4 +927,111 @@ func edgeFacts(pred, succ *ssa.BasicBlock) []condFact {
 		}
 	}
 	return out
+}
+
+
+// resolveOrigin follows a value back to where it was made: through type changes, loads of single-store cells, closure
+// free variables (to the binding at the MakeClosure), parameters of functions with exactly one static call site, and
+// loads of a field of a locally built struct (to the value stored into that field). Stops at anything else.
+func resolveOrigin(c *Ctx, v ssa.Value, depth int) ssa.Value {
+	for d := 0; d < depth && v != nil; d++ {
+		switch x := v.(type) {
+		case *ssa.ChangeType:
+			v = x.X
+		case *ssa.Convert:
+			v = x.X
+		case *ssa.MakeInterface:
+			v = x.X
+		case *ssa.FreeVar:
+			fn := x.Parent()
+			var bound ssa.Value
+			if fn.Parent() != nil {
+				eachInstr(fn.Parent(), func(in ssa.Instruction) {
+					if mc, ok := in.(*ssa.MakeClosure); ok && mc.Fn == ssa.Value(fn) {
+						for i, fv := range fn.FreeVars {
+							if fv == x && i < len(mc.Bindings) {
+								bound = mc.Bindings[i]
+							}
+						}
+					}
+				})
+			}
+			if bound == nil {
+				return v
+			}
+			v = bound
+		case *ssa.Parameter:
+			fn := x.Parent()
+			idx := -1
+			for i, p := range fn.Params {
+				if p == x {
+					idx = i
+				}
+			}
+			var arg ssa.Value
+			n := 0
+			for _, f := range c.Funcs {
+				eachInstr(f, func(in ssa.Instruction) {
+					if cc := getCall(in); cc != nil && cc.StaticCallee() == fn && idx >= 0 && idx < len(cc.Args) {
+						n++
+						arg = cc.Args[idx]
+					}
+				})
+			}
+			if n != 1 {
+				return v
+			}
+			v = arg
+		case *ssa.UnOp:
+			if x.Op != token.MUL {
+				return v
+			}
+			switch a := x.X.(type) {
+			case *ssa.Alloc:
+				st := cellStores(a)
+				if len(st) != 1 {
+					return v
+				}
+				v = st[0]
+			case *ssa.FreeVar:
+				o := resolveOrigin(c, a, depth-d-1)
+				al, ok := o.(*ssa.Alloc)
+				if !ok {
+					return v
+				}
+				st := cellStores(al)
+				if len(st) != 1 {
+					return v
+				}
+				v = st[0]
+			case *ssa.FieldAddr:
+				base := resolveOrigin(c, a.X, depth-d-1)
+				al, ok := base.(*ssa.Alloc)
+				if !ok {
+					return v
+				}
+				var stored ssa.Value
+				n := 0
+				for _, ref := range *al.Referrers() {
+					if fa, ok := ref.(*ssa.FieldAddr); ok && fa.Field == a.Field {
+						for _, r2 := range *fa.Referrers() {
+							if st, ok := r2.(*ssa.Store); ok && st.Addr == fa {
+								stored = st.Val
+								n++
+							}
+						}
+					}
+				}
+				if n != 1 {
+					return v
+				}
+				v = stored
+			default:
+				return v
+			}
+		default:
+			return v
+		}
+	}
+	return v
 }
